@@ -50,9 +50,10 @@ bool vh_enum(const vh::Opts& o, uint64_t k, vh::Case& out) {
   int mode = (rest & 1) ? 32 : 64;
   uint64_t rep = rest >> 1;
   out = vh::Case();
-  out.cfg = {mode, int64_t(form), 0};
   vh::Op ch;
   uint64_t s = mix(o.seed * 1000003ull + g);
+  uint64_t osel = mix(s ^ 0xABCDu) % 20;                       // encoding option of the instance (cfg[2] bits 1..3), 40% of the sweep
+  out.cfg = {mode, int64_t(form), int64_t(osel >= 2 && osel < 8 ? osel << 1 : 0)};
   for (int i = 0; i < kChoices; i++) { s = mix(s + uint64_t(i) + rep); ch.push_back(int64_t(s >> 33)); }
   out.ops.push_back(ch);
   return true;
@@ -61,17 +62,25 @@ bool vh_enum(const vh::Opts& o, uint64_t k, vh::Case& out) {
 rc::Gen<vh::Case> vh_gen(const vh::Opts&) {
   using namespace rc;
   int nforms = int(g_db.forms.size());
-  return gen::apply([](int mode, int form, int unsized, std::vector<int> ch) {
-      vh::Case c; c.cfg = {mode ? 32 : 64, form, unsized >= 80 ? 1 : 0};      // cfg[2] & 1: memory operands are given without a size (x86::ptr(...))
+  return gen::apply([](int mode, int form, int unsized, int osel, std::vector<int> ch) {
+      // cfg[2] & 1: memory operands are given without a size (x86::ptr(...)); bits 1..3: encoding option (see run_case)
+      vh::Case c; c.cfg = {mode ? 32 : 64, form, (unsized >= 80 ? 1 : 0) | (osel >= 2 && osel < 8 ? osel << 1 : 0)};
       vh::Op op; for (int v : ch) op.push_back(v);
       c.ops.push_back(op); return c; },
-    vh::irange<int>(0, 1), vh::irange<int>(0, nforms - 1), vh::irange<int>(0, 99),
+    vh::irange<int>(0, 1), vh::irange<int>(0, nforms - 1), vh::irange<int>(0, 99), vh::irange<int>(0, 19),
     gen::container<std::vector<int>>(size_t(kChoices), vh::irange<int>(0, 0x3fffffff)));
 }
 
 static std::string hex(const uint8_t* p, size_t n) { std::string s; char b[4]; for (size_t i = 0; i < n; i++) { snprintf(b, sizeof b, "%02x", p[i]); s += b; } return s; }
 
 #include "oracle/textnorm.h"
+
+// "{vex} " / "{vex3} " / "{evex} " in a disassembly names the ENCODING the decoder saw (LLVM prints {vex} for the VEX form of AVX-VNNI/IFMA
+// instructions), not the instruction or its operands: with the encoding options of this harness both choices occur on purpose.
+static std::string strip_enc(std::string t) {
+  for (const char* k : {"{vex} ", "{vex3} ", "{vex2} ", "{evex} "}) { size_t p; while ((p = t.find(k)) != std::string::npos) t.erase(p, strlen(k)); }
+  return t;
+}
 
 static std::string reason_code(const std::string& m) {
   struct K { const char* kw; const char* code; };
@@ -120,12 +129,35 @@ static void run_case(const vh::Case& c, vh::Ctx& ctx, bool twin, bool* twin_outl
     if (any) { ctx.cls("unsized_memory_operand"); unsized = true; }
   }
 
+  // encoding options (cfg[2] bits 1..3): the instruction and its operands stay the same, only the encoding AsmJit has to choose changes -
+  // mod_mr()/mod_rm() (the other direction form of reg,reg instructions, FMA4/XOP operand swap with VEX.W), vex3(), evex() on a VEX form,
+  // long_() (imm32 / rel32 form), rex() on legacy encodings in 64-bit mode. The judges compare decoded operands, not bytes.
+  {
+    int osel = c.cfg.size() > 2 ? int((uint64_t(c.cfg[2]) >> 1) & 7) : 0;
+    uint32_t add = 0;
+    switch (osel) {
+      // evex() is never generated (vh_gen / vh_enum produce selectors 2..7 only): on operands that only a VEX form admits it emits an EVEX prefix -
+      // known finding evex-option-on-vex-only-form, kept reachable through regress/C01/known-evex-option-on-vex-only-form.case.
+      // long_() and rex() are not generated: whether rex() must show on x87 forms and long_() turning mov r64, imm32 into movabs are
+      // encoding choices the decoders' text cannot arbitrate.
+      case 1: if (f.prefix == "VEX") add = xi::kOptEvex; break;
+      case 3: case 6: if (!f.prefix.empty()) add = xi::kOptModMR; break;
+      case 4: case 7: if (!f.prefix.empty()) add = xi::kOptModRM; break;
+      case 5: if (f.prefix == "VEX") add = xi::kOptVex3; break;
+      default: break;
+    }
+    if (add) { x.options |= add; ctx.cls(add == xi::kOptEvex ? "opt_evex" : add == xi::kOptModMR ? "opt_mod_mr" : add == xi::kOptModRM ? "opt_mod_rm" : add == xi::kOptVex3 ? "opt_vex3" : add == xi::kOptLongForm ? "opt_long_form" : "opt_rex"); }
+  }
+
   bool has_u32_abs = false; int64_t u32_disp = 0;
   for (xi::Opnd& o : x.ops) if (is_u32_abs(o, mode)) { has_u32_abs = true; u32_disp = o.mem.disp; if (twin) o.mem.disp &= 0x7fffffffLL; }
   if (has_u32_abs && !twin) ctx.cls("mem_abs_u32_zero_extended");
 
   InstId id = InstAPI::string_to_inst_id(mode == 64 ? Arch::kX64 : Arch::kX86, f.name.c_str(), f.name.size());
   if (id == 0) { ctx.cls("skip_unknown_mnemonic"); return; }
+  // evex() is documented as "use the 4-byte EVEX prefix IF POSSIBLE": on an instruction that has no EVEX encoding at all it has to be a no-op
+  const bool evex_on_vex_only = (x.options & xi::kOptEvex) && !x86::InstDB::inst_info_by_id(id).is_evex();
+  if (evex_on_vex_only) ctx.cls("opt_evex_on_vex_only_instruction");
 
   CodeHolder code;
   code.init(Environment(mode == 64 ? Arch::kX64 : Arch::kX86));
@@ -151,6 +183,21 @@ static void run_case(const vh::Case& c, vh::Ctx& ctx, bool twin, bool* twin_outl
 
   // ---- J3: database template ----
   xt::Verdict tv = xt::judge(g_db, x, A, An);
+  if ((x.options & xi::kOptModMR) && tv.status == xt::kMismatch && f.name.compare(0, 4, "kmov") == 0 && x.ops.size() == 2 && x.ops[0].kind == xi::Opnd::kReg && x.ops[1].kind == xi::Opnd::kReg &&
+      x.ops[0].reg.rc == xi::RC::K && x.ops[1].reg.rc == xi::RC::K) {
+    // mod_mr() on kmov k, k selects the store opcode (91 /r), which is defined for a memory destination only (ModRM.mod = 11 is #UD)
+    ctx.fail_unless_known("mod-mr-kmov-k-k-store-opcode", desc + " :: mod_mr() on kmov k, k emitted opcode 91 (kmov m, k) with a register in ModRM.rm: " + tv.detail);
+    return;
+  }
+  if ((x.options & xi::kOptEvex) && tv.status == xt::kMismatch) {
+    // evex() ("use the 4-byte EVEX prefix if possible") on a VEX form whose operands no EVEX form of the database admits: it has to be a
+    // no-op. One keyed finding (known while listed), judged no further - the bytes are some other instruction or none.
+    size_t q = 0; while (q < An && (A[q] == 0x66 || A[q] == 0x67 || A[q] == 0x2E || A[q] == 0x36 || A[q] == 0x3E || A[q] == 0x26 || A[q] == 0x64 || A[q] == 0x65 || A[q] == 0xF2 || A[q] == 0xF3)) q++;
+    if (q < An && A[q] == 0x62) {
+      ctx.fail_unless_known("evex-option-on-vex-only-form", desc + " :: evex() on operands that only a VEX form admits emitted an EVEX prefix instead of being ignored" + (evex_on_vex_only ? " (the instruction has no EVEX encoding at all)" : ""));
+      return;
+    }
+  }
   // semantic no-op rewrites AsmJit performs on purpose and the architecture defines as equivalent
   bool equiv = false;
   if (tv.status == xt::kMismatch) {
@@ -196,12 +243,12 @@ static void run_case(const vh::Case& c, vh::Ctx& ctx, bool twin, bool* twin_outl
     xt::Verdict tl = xt::judge(g_db, x, L.data(), L.size());
     l_matches_template = tl.status == xt::kMatch;
     if (dA.count && !j1_len_bad && dL.consumed == L.size()) {
-      std::string na = norm_text(dA.text, opsize, addrbits), nl = norm_text(dL.text, opsize, addrbits);
+      std::string na = norm_text(strip_enc(dA.text), opsize, addrbits), nl = norm_text(strip_enc(dL.text), opsize, addrbits);
       if (na != nl) { j1_text_bad = true; j1_detail = "llvm decodes asmjit bytes as '" + dA.text + "' but its own encoding " + hex(L.data(), L.size()) + " of the same text as '" + dL.text + "'"; }
       else { j1_agree = true; ctx.cls("j1_agree"); judged = true; }
     }
     if (oA.count && !j2_len_bad && oL.consumed == L.size()) {
-      std::string na = norm_text(oA.text, opsize, addrbits), nl = norm_text(oL.text, opsize, addrbits);
+      std::string na = norm_text(strip_enc(oA.text), opsize, addrbits), nl = norm_text(strip_enc(oL.text), opsize, addrbits);
       if (na != nl) { j2_text_bad = true; j2_detail = "opcodes decodes asmjit bytes as '" + oA.text + "' but llvm's encoding " + hex(L.data(), L.size()) + " as '" + oL.text + "'"; }
       else { j2_agree = true; ctx.cls("j2_agree"); judged = true; }
     }
@@ -209,6 +256,11 @@ static void run_case(const vh::Case& c, vh::Ctx& ctx, bool twin, bool* twin_outl
 
   // The independent assembler and both decoders side with AsmJit against the DB row: the row is the outlier.
   bool db_outlier = tv.status == xt::kMismatch && asm_ok && j1_agree && (j2_agree || !oA.count);
+  // LLVM 14's ASSEMBLER does not compress disp8 of an EVEX instruction in 16-bit addressing (it emits the raw byte, which its own decoder and
+  // libopcodes then read as disp8*N), so its encoding is no reference there. A DB-row typo is then outvoted by the two decoders alone: LLVM
+  // decodes AsmJit's bytes to exactly the requested text and libopcodes consumes them completely.
+  if (tv.status == xt::kMismatch && !db_outlier && addrbits == 16 && dA.count && !j1_len_bad && oA.count && !j2_len_bad &&
+      norm_text(strip_enc(dA.text), opsize, addrbits) == norm_text(text, opsize, addrbits)) { db_outlier = true; ctx.cls("db_row_outvoted_by_decoders_addr16_evex"); }
   if (twin) { if (twin_outlier) *twin_outlier = db_outlier; if (twin_bytes) twin_bytes->assign(A, A + An); return; }
   if (tv.status == xt::kMismatch && !db_outlier && has_u32_abs) {
     // LLVM cannot assemble an absolute address of [2^31, 2^32) in 64-bit mode, so it cannot outvote a DB row for it. Ask about the twin
